@@ -22,6 +22,21 @@ DROP_OPS = [
 ]
 
 
+def _docs_after(prefix):
+    """Documents the generator's reference model holds after `prefix` (generation aid, never an oracle)."""
+    m = cc.Model()
+    for o in prefix:
+        if o["op"] == "add":
+            if m.key_free(o["val"]):
+                m.docs[m.next_id] = o["val"]
+            m.next_id += 1
+        elif o["op"] == "update" and o["id"] in m.docs and m.key_free(o["val"], besides=o["id"]):
+            m.docs[o["id"]] = o["val"]
+        elif o["op"] == "remove":
+            m.docs.pop(o["id"], None)
+    return m.docs
+
+
 def scenarios(tier, seed):
     init_idx, wanted, rm = cc.GROUPS["crud"]
     base = {"init_idx": init_idx, "wanted": wanted, "rm": rm}
@@ -41,6 +56,10 @@ def scenarios(tier, seed):
                 continue
             if op == {"op": "ext", "x": 0} and not any(o["op"] == "ext" for o in pre):
                 continue
+            if op["op"] == "update" and _docs_after(pre).get(op["id"]) == op["val"]:
+                # Collection.tla's UpdCall (like cc.gen_ops) leaves out updates that rewrite the value a
+                # document already holds; pick the other value of the same key class instead
+                op = dict(op, val=2)
             out.append(dict(base, prefix=pre, kind="drop", op=op))
     return out
 
